@@ -3,7 +3,7 @@
      SET <id>
      DOC <resid> <tokens>     tokens: N | S<hex|-> | L<n> item*n | M<n> (K<hex|-> item)*n   (document order)
      SPEC <fuel> <name>       -> "S <set> <name> <loaded> <linked> <err><cyc><oof> <tree>"
-     IMPL <wf> <fuel> <name>  -> "I <set> <name> <loaded> <linked> <oof><woof><ub> <tree>"
+     IMPL <wf> <fuel|auto> <name>  -> "I <set> <name> <loaded> <linked> <oof><woof><ub> <tree>"
                                  "IR <set> <name> <resid> <loaded> <tree>"   every resource of that run
                                  "IL <set> <name> <resid> <ok> <tree>"       Link of the other loaded resources, same state
      END                      -> "E <set>"
@@ -65,7 +65,9 @@ let () =
          Printf.printf "S %s %s %s %s %s%s%s %s\n" !set name (b01 loaded) (b01 linked)
            (b01 fl.f_err) (b01 fl.f_cyc) (b01 fl.f_oof) (canon_s v)
        | ["IMPL"; wf; fuel; name] ->
-         let wf = nat_of_int (int_of_string wf) and fuel = nat_of_int (int_of_string fuel) in
+         (* "auto": one more than the bound of theorem C14_compile_total_resolve *)
+         let wf = nat_of_int (int_of_string wf)
+         and fuel = if fuel = "auto" then S (fuel_bound !ds) else nat_of_int (int_of_string fuel) in
          let o = compile_impl !ds wf fuel (bytes_of_string name) in
          Printf.printf "I %s %s %s %s %s%s%s %s\n" !set name (b01 o.o_loaded) (b01 o.o_linked)
            (b01 o.o_oof) (b01 o.o_woof) (b01 o.o_ub) (canon_s o.o_tree);
